@@ -148,16 +148,13 @@ func (d *Data) MergeLabels(v dvid.VersionID, op labels.MergeOp, info dvid.ModInf
 	}
 
 	// Write the final merged index and also record surface_mutid since surface changed.
-	if err = targetIdx.Add(mergeIdx, mutInfo); err != nil {
+	// The indices above were read without keeping their shard locks, and bodyMutMu does not
+	// exclude the index changes of voxel writes (ChangeLabelIndex), so the read-modify-write
+	// is done on the current indices while holding the locks of every index involved.
+	if targetIdx, err = d.mergeIndices(v, op, mutInfo); err != nil {
 		return
 	}
-	dvid.Infof("putting targetIdx with user %s\n", targetIdx.LastModUser)
-	if err = PutLabelIndex(d, v, op.Target, targetIdx); err != nil {
-		return
-	}
-	for merged := range delta.Merged {
-		DeleteLabelIndex(d, v, merged)
-	}
+	dvid.Infof("put targetIdx with user %s\n", targetIdx.LastModUser)
 	if err = labels.LogMerge(d, v, op); err != nil {
 		return
 	}
